@@ -178,7 +178,7 @@ func ruleNegotiationSymmetry(c *Ctx, rule string) {
 		}
 		// the context the carrier is opened with is AppendToOutgoingContext(ctx, key, val), written here or in a helper
 		ok := false
-		allInstrs(fn, func(in ssa.Instruction) {
+		w.instrsThroughHelpers(fn, func(in ssa.Instruction) {
 			ci, isC := in.(*ssa.Call)
 			if !isC || !ci.Call.IsInvoke() || !strings.HasPrefix(ci.Call.Method.Name(), "Open") || len(ci.Call.Args) == 0 {
 				return
@@ -208,12 +208,12 @@ func ruleNegotiationSymmetry(c *Ctx, rule string) {
 			continue
 		}
 		ok := false
-		allInstrs(fn, func(in ssa.Instruction) {
+		w.instrsThroughHelpers(fn, func(in ssa.Instruction) {
 			ci, isC := in.(*ssa.Call)
 			if !isC {
 				return
 			}
-			if k, isCarrier := w.carrierOp(ci); !isCarrier || k != "carrier-sendheader" {
+			if k, isCarrier := w.carrierOpBound(ci); !isCarrier || k != "carrier-sendheader" {
 				return
 			}
 			if pc, isP := origin(ci.Call.Args[0]).(*ssa.Call); isP && calleeName(pc) == "google.golang.org/grpc/metadata.Pairs" {
@@ -1021,14 +1021,14 @@ func ruleUnregisterAndCallbacks(c *Ctx, r6, r7 string) {
 			okKey = false
 			continue
 		}
-		phi, isPhi := ad.Call.Args[2].(*ssa.Phi)
-		if !isPhi {
+		cases := valueCases(ad.Call.Args[2], 0) // written here, or returned by a helper that holds the nil test
+		if len(cases) < 2 {
 			okKey = false
 			continue
 		}
 		good := false
-		for _, e := range phi.Edges {
-			if call, ok := e.(*ssa.Call); ok && staticCallee(call) == nil {
+		for _, vc := range cases {
+			if call, ok := vc.Val.(*ssa.Call); ok && staticCallee(call) == nil && !call.Call.IsInvoke() && len(call.Call.Args) > 0 {
 				if fr, _, isF := loadedField(call.Call.Value); isF && fr.Field == ro.TSHAffinity && origin(call.Call.Args[0]) == origin(ad.Call.Args[1]) {
 					good = true
 				}
